@@ -263,6 +263,15 @@ impl DifficultyValues {
         n_diff_objects: &mut usize,
         mods: &GameMods,
     ) -> TaikoDifficultyObjects {
+        // Passing the last hit means passing the whole map, including
+        // trailing drum rolls and swells.
+        let total_hits = converted.hit_objects.iter().filter(|h| h.is_circle()).count();
+        let take = if total_hits > 0 && take as usize >= total_hits {
+            u32::MAX
+        } else {
+            take
+        };
+
         let mut hit_objects_iter = converted
             .hit_objects
             .iter()
